@@ -105,9 +105,9 @@ def r27_drop_zip_counter(label='', header_extra='', body_prefix=''):
     return hook
 
 
-def r28_for_owned(pattern_rx, ctor, itname, header_extra='', body_prefix='', mid=''):
+def r28_for_owned(pattern_rx, ctor, itname, header_extra='', body_prefix='', mid='', after=''):
     """-> hook: the single loop `for PAT in EXPR {` whose header matches `pattern_rx` (groups: 1 = PAT, 2 = EXPR) becomes
-    `let mut IT = CTOR(EXPR); while let Some(PAT) = IT.next() HEADER_EXTRA { BODY_PREFIX`  (HEADER_EXTRA = loop invariants, BODY_PREFIX / MID (between the let and the while) = ghost code: all R8)"""
+    `let mut IT = CTOR(EXPR); while let Some(PAT) = IT.next() HEADER_EXTRA { BODY_PREFIX`  (HEADER_EXTRA = loop invariants, BODY_PREFIX / MID (between the let and the while) / AFTER (behind the loop) = ghost code: all R8)"""
     def hook(body, fired):
         msk = X.mask(body)
         hits = list(re.finditer(pattern_rx, msk))
@@ -117,6 +117,9 @@ def r28_for_owned(pattern_rx, ctor, itname, header_extra='', body_prefix='', mid
         pat, expr = body[m.start(1):m.end(1)], body[m.start(2):m.end(2)]
         new = 'let mut %s = %s(%s);%s while let Some(%s) = %s.next() %s{%s' % (itname, ctor, expr.strip(), mid.replace('\n', X.SEP), pat.strip(), itname, header_extra.replace('\n', X.SEP), body_prefix.replace('\n', X.SEP))
         fired.append('R28 for %s in %s -> let mut %s = %s(..); while let Some(..) = %s.next()' % (X.norm_ws(pat), X.norm_ws(expr), itname, ctor, itname))
+        if after:
+            cb = X.match_close(msk, m.end() - 1)          # the loop's closing brace: ghost code (R8) goes right behind it
+            body = body[:cb + 1] + X.SEP + after.replace('\n', X.SEP) + X.SEP + body[cb + 1:]
         return body[:m.start()] + X._pad(new, body[m.start():m.end()]) + body[m.end():]
     return hook
 
